@@ -58,8 +58,8 @@
 (*             observations in TraceWatchFile).                            *)
 (*  writer     DSer / DEntry / DumpLines: dump().                          *)
 (*                                                                         *)
-(* ZONES.  wzone = "dom": the statement applies (ParseOK, RoundTrip,       *)
-(* NormalForm).  "glue": a fold whose effect on the content depends on     *)
+(* ZONES.  wzone = "dom": the statement applies (ParseOK; RoundTrip, which  *)
+(* includes the normal form).  "glue": a fold whose effect on the content depends on     *)
 (* the format (>= 4 directly before a blank; <= 3 indented inside a        *)
 (* field) and "inner": a comment / blank line between two continuation     *)
 (* lines (the code skips it, uscan does not) -- the parser model predicts  *)
@@ -76,7 +76,7 @@
 (*        by dump, and split AGAIN when the dump is read                   *)
 (*        -> RoundTrip violated (a defect of the format design itself:     *)
 (*        the model shows it; PPKnown = TRUE takes such documents out of   *)
-(*        RoundTrip / NormalForm).                                         *)
+(*        RoundTrip).                                                      *)
 (*   bare `opts=`: the model says ValueError (POpts), the code raises      *)
 (*        IndexError.                                                      *)
 (* Other spec-level negative controls (each tried, each makes TLC report   *)
@@ -85,6 +85,22 @@
 (*   NeverQuote = TRUE      (dump never writes quotes)  -> RoundTrip       *)
 (*   CommentEndsCont = TRUE (a comment line ends a pending continuation)   *)
 (*                          -> InnerSkipped                                *)
+(* Also checked in every state: NoVersion (the text without its version    *)
+(* line: MissingVersion / None) and BadOK (nine one-defect variants of the *)
+(* documents written without folds and comments: dangling continuation,    *)
+(* bare opts=, unterminated quote, junk / trailing junk / nothing after     *)
+(* `version=`, version line last, options before the version line).        *)
+(*                                                                         *)
+(* Configurations (spec/WatchFile_*.cfg; states on the current model):     *)
+(*   quick_layout  1 line, 118 items, pads + every single fold     7 850   *)
+(*   quick_seq     2 lines, 3 items, comment/blank lines, 3 forms          *)
+(*                 of the version line                             9 540   *)
+(*   layout        1 line, all 314 items, every single fold       22 578   *)
+(*   cut2          1 line, 118 items, every double fold           39 926   *)
+(*   pairs         2 lines, 118 x 118 items                      153 902   *)
+(*   seq3          3 lines, 3 items, three kinds of gaps          47 730   *)
+(*   gaps          2 lines, 3 items, all eight kinds of gaps      80 736   *)
+(*   neg           1 line, 20 items (base of the negative controls)        *)
 (***************************************************************************)
 EXTENDS Integers, Sequences, FiniteSets, TLC, Json
 
